@@ -57,6 +57,8 @@ def schedules(pid, tier, seed):
         n = 60 if q else 400
         for i in range(n):
             bub.append(g.link(nid(), wrap=[254, 257][i % 2] if i % 8 == 7 else 0))
+        for i in range(12 if q else 80):   # the application reads at its own pace (stalled / intermittent): parked deliveries
+            bub.append(g.burst(nid(), 3 + (i * 5) % 40, ['intermittent', 'stalled'][i % 2]))
         for i in range(16 if q else 96):
             real.append(g.senders_rt(nid(), reconnect=False))
     elif pid == 'C09':
@@ -70,6 +72,10 @@ def schedules(pid, tier, seed):
         fams = [g.sender, g.receiver, g.link, g.heartbeat]
         for i in range(n):
             bub.append(g.with_close(fams[i % 4](nid())))
+        for i in range(4 if q else 24):
+            bub.append(g.close_in_reconnect(nid()))
+        for i in range(4 if q else 16):
+            bub.append(g.close_on_channel(nid(), [0, 255, 0, 1][i % 4]))
     elif pid == 'C17':
         n = 60 if q else 300
         for i in range(n):
